@@ -1,8 +1,9 @@
--- PINNED by bin/pin_tables: copy of Gen/Parse.lean as generated from /repo at 1a8efdf — regenerate, do not edit
+-- PINNED by bin/pin_tables: copy of Gen/Parse.lean as generated from /repo at 2d4da7d — regenerate, do not edit
 namespace Ggql.Pinned
 def sdlEmptyTokenSpins : Bool := false
 def exeVarTypeOptional : Bool := false
 def fieldPosAfterLookahead : Bool := false
+def opErrPosAfterLookahead : Bool := false
 def parserSkeleton : List (String × String) := [
   ("ParseValue", "aee9fa3d28d3"),
   ("ParseValueString", "03432091c79e"),
@@ -15,7 +16,7 @@ def parserSkeleton : List (String × String) := [
   ("exeParser.readSelectionSet", "633413140d11"),
   ("exeParser.readVarDef", "d6b69b1b20cb"),
   ("exeParser.readVarDefs", "007f8ff5b513"),
-  ("parseExe", "b8364a668618"),
+  ("parseExe", "b2fc5513a9c5"),
   ("parseSDL", "5c0f8828856d"),
   ("parser.putBack", "53625e41ee42"),
   ("parser.readArgValue", "88c58bf573bb"),
